@@ -102,7 +102,8 @@ class TraceRun:
         if "desc" in info:
             self.cur_desc = info["desc"]
         if info.get("kind") == "region_entry" and model:
-            self.ie_cur = bool(self.ie_cur) or any(x == 0 for x in model[-1])
+            base = self.snap[-1][5] if self.snap else self.ie_cur
+            self.ie_cur = bool(base) or any(x == 0 for x in model[-1])
             self.cur_desc = {"op": "add_guard"}
         if self.faults.get("abort_stmt") == site:
             self.probe("abort_stmt_fired")
